@@ -1136,6 +1136,12 @@ def check_no_stateful_memo(cx: Cx, rule='R-SHARED'):
                                                                     any('DataFrame' in repr(a)[:60] for a in v.args[:1]))):
                     why = f"returns {v!r}, an object built in the call: every caller with equal arguments receives the very same object"
                     break
+                # the result of a library call that parses / loads / builds (json.load, open, copy, ...) is a new mutable object as well
+                if isinstance(v, App) and (v.fn == 'call' or v.fn.startswith('.')) and \
+                        any(k in v.fn or (v.args and k in repr(v.args[0])[:40]) for k in ('load', 'read', 'parse', 'open', 'copy', 'DataFrame', 'array', 'list', 'dict')):
+                    why = (f"returns {v!r}, an object the library builds for this call: every caller with equal arguments receives the very "
+                           f"same (mutable) object")
+                    break
         if not why:
             # the cache key compares arguments with == (1 == 1.0 == True) unless typed=True: a result computed by arithmetic on the
             # arguments has the type of whichever equal argument came first
